@@ -131,7 +131,7 @@ func compareStep(r ref.StepResult, stride *core.Stride, err error, pending inter
 func runC04(c *sim.Ctx, t *testing.T) {
 	sim.Install(c)
 	defer sim.Uninstall()
-	cfg := genCfg{native: true, failOps: true, nullRet: true, permanents: true, badBranch: true, unknownNode: true, guards: true, guardEmits: true, loops: true, maxNodes: 5, multiCand: true, errorNode: true, varStrings: true, sameStub: true}
+	cfg := genCfg{native: true, failOps: true, nullRet: true, permanents: true, badBranch: true, unknownNode: true, guards: true, guardEmits: true, loops: true, maxNodes: 5, multiCand: true, errorNode: true, varStrings: true, sameStub: true, globals: true, noop: true}
 	gs := genSpec(c, cfg)
 	spec, err := compile(gs)
 	if err != nil {
